@@ -171,6 +171,19 @@ class ElemRef:
         return "&mut %r" % (self.get(),)
 
 
+class LocalRef:
+    """`&mut` to a local that holds a plain value: reads and writes go to the local"""
+
+    def __init__(self, env, key):
+        self.lst, self.idx = env, key          # same protocol as ElemRef
+
+    def get(self):
+        return self.lst[self.idx]
+
+    def __repr__(self):
+        return "&mut %r" % (self.get(),)
+
+
 class Closure:
     def __init__(self, node, env):
         self.node, self.env = node, env
@@ -323,6 +336,13 @@ class Interp:
                 return Opaque(n["res"])
             return Opaque(n.get("res", "path"))
         if k == "Ref":
+            inner = n["e"]
+            if n.get("mut") and not n.get("exp") and inner["k"] == "Path" and inner.get("rk") == "Local" and inner["res"] in env:
+                cur = env[inner["res"]]
+                # `&mut x` of a local holding a plain value (a number, a flag, a text, an enum value): a reference through which
+                # the callee / the alias writes the local itself (lists, maps and structs are shared objects already)
+                if isinstance(cur, (bool, int, float, str, V)):
+                    return LocalRef(env, inner["res"])
             return self.ev(n["e"], env)
         if k == "Cast":
             v = self.ev(n["e"], env)
@@ -343,7 +363,7 @@ class Interp:
         if k == "Un":
             if n["op"] == "*":
                 v = self.ev(n["e"], env)
-                return v.get() if isinstance(v, ElemRef) else v
+                return v.get() if isinstance(v, (ElemRef, LocalRef)) else v
             v = self.ev(n["e"], env)
             if n["op"] == "!" and isinstance(v, bool):
                 return not v
@@ -515,7 +535,7 @@ class Interp:
                     tgt = tgt["e"]
                 if tgt["k"] == "Path" and tgt.get("rk") == "Local":
                     cur = env.get(tgt["res"]) if tgt["res"] in env else None
-                    if isinstance(cur, ElemRef):
+                    if isinstance(cur, (ElemRef, LocalRef)):
                         cur.lst[cur.idx] = self.ev(n["r"], env)
                         return ()
                     env[tgt["res"]] = self.ev(n["r"], env)
@@ -896,6 +916,30 @@ class Interp:
                 m in ("map", "filter", "filter_map", "find", "find_map", "any", "all", "position", "for_each", "rev", "enumerate", "count", "take_while", "skip_while", "map_while", "flat_map", "collect", "zip", "fold", "sum"):
             # an integer range used as an iterator
             recv = list(range(recv[1], recv[2] + (1 if recv[3] else 0)))
+        if m == "chain" and len(n["args"]) == 1 and isinstance(recv, (list, ListIter)):
+            other = self.ev(n["args"][0], env)
+            a_ = recv if isinstance(recv, list) else recv.items[recv.pos:]
+            if isinstance(other, ListIter):
+                other = other.items[other.pos:]
+            if isinstance(other, V) and other.name in ("Option::Some", "Option::None"):
+                other = [other.args[0]] if other.name == "Option::Some" else []
+            if isinstance(other, list):
+                return list(a_) + list(other)
+        if m == "zip" and len(n["args"]) == 1 and isinstance(recv, (list, ListIter)):
+            other = self.ev(n["args"][0], env)
+            a_ = recv if isinstance(recv, list) else recv.items[recv.pos:]
+            if isinstance(other, ListIter):
+                other = other.items[other.pos:]
+            if isinstance(other, list):
+                return [(x, y) for x, y in zip(a_, other)]
+        if m == "zip" and len(n["args"]) == 1 and isinstance(recv, V) and recv.name in ("Option::Some", "Option::None"):
+            other = self.ev(n["args"][0], env)
+            if isinstance(other, V) and other.name in ("Option::Some", "Option::None"):
+                return some((recv.args[0], other.args[0])) if recv.name == "Option::Some" and other.name == "Option::Some" else NONE
+        if m == "map_or_else" and len(n["args"]) == 2 and isinstance(recv, V) and recv.name in ("Option::Some", "Option::None", "Result::Ok", "Result::Err"):
+            if recv.name in ("Option::Some", "Result::Ok"):
+                return self.apply(self.ev(n["args"][1], env), [recv.args[0]])
+            return self.apply(self.ev(n["args"][0], env), [] if recv.name == "Option::None" else [recv.args[0]])
         if m in ("iter", "into_iter", "iter_mut") and isinstance(recv, V) and recv.name in ("Option::Some", "Option::None") and not n["args"]:
             return [recv.args[0]] if recv.name == "Option::Some" else []       # an Option iterates over zero or one item
         if m in ("is_some", "is_none") and isinstance(recv, V) and not n["args"]:
@@ -1236,6 +1280,8 @@ class Interp:
             return (some(recv[0] if m == "first" else recv[-1])) if recv else NONE
         if isinstance(recv, (list, ListIter)) and not n["args"]:
             items = recv if isinstance(recv, list) else recv.items[recv.pos:]
+            if m == "iter_mut" and isinstance(recv, list) and recv and all(isinstance(x, (bool, int, float, str)) or isinstance(x, V) for x in recv):
+                return [ElemRef(recv, i) for i in range(len(recv))]        # `&mut` to each plain element: writes reach the list
             if m in ("iter", "into_iter", "iter_mut", "by_ref", "cloned", "copied"):
                 return list(items)
             if m == "enumerate":
